@@ -17,6 +17,10 @@ Core-only.
     the `cleared` flag), `config.Clear()` (the storages object is carried over, its items become
     removal candidates), `config.Commit()`, `instance.AcmeUpdate()` on leader / non-leader, with
     and without an ACME account.  The code before the repairs is kept as `*Old` (witnesses only).
+    The controller cycle around it (`Inst`, `ICycle`, `icycleP`): `AcmeUpdate` followed by
+    `HAProxyUpdate`, whose reload may fail (`failedSince`, `reloadOwed` as `updateSuccessful`/`Reload`
+    set them) and whose deferred `Commit` runs in every case; `AddPolicy` = whether the enqueue
+    decision looks at `failedSince` (the code that exists: no).
 
 (c) the part of `pkg/converters/ingress/ingress.go` that feeds (b): per partial sync the
     tracker closure (`trackAddedIngress` + `QueryLinks(..., true)`) decides which storages are
@@ -309,6 +313,85 @@ def cycleOld (s : Storages) (c : Cycle) : Storages × List QOp :=
   let r := acmeUpdateOld c.leader c.acct pre
   (commit r.1, r.2)
 
+/-! ### the controller cycle around the instance
+
+`ReconcileIngress` runs, per reconciliation, the converter (writes the storages), then
+`instance.AcmeUpdate()`, then `instance.HAProxyUpdate()`. `HAProxyUpdate` starts with
+`defer i.config.Commit()` — the storages are committed whatever happens next — and, when the
+configuration cannot be applied at run time, reloads HAProxy. A reload that fails sets
+`failedSince` (`updateSuccessful(false)`) and `reloadOwed`; one that succeeds clears both.
+`AcmeUpdate` runs BEFORE `HAProxyUpdate`: what it can see of the instance is the state the
+previous reconciliations left behind. -/
+
+/-- the instance fields a reconciliation reads and writes next to the storages -/
+structure Inst where
+  st        : Storages := {}
+  failing   : Bool := false     -- `failedSince != nil`
+  owed      : Bool := false     -- `reloadOwed`: the last reload failed, the next update retries it
+  committed : Bool := false     -- `config.hasCommittedData()` (`globalOld != nil`)
+deriving Repr, DecidableEq
+
+/-- how `AcmeUpdate` treats the additions while `failedSince` is set. The code that exists never
+looks at `failedSince` (`always`); `skipWhileFailing` is the variant that "postpones" them
+(witness only: the deferred `Commit` then forgets them). -/
+inductive AddPolicy where
+  | always
+  | skipWhileFailing
+deriving Repr, DecidableEq
+
+def isAdd : QOp → Bool
+  | .add _ _ => true
+  | .remove _ _ => false
+
+/-- `instance.AcmeUpdate()` with the instance state in view -/
+def acmeUpdateP (p : AddPolicy) (failing leader acct : Bool) (s : Storages) : Storages × List QOp :=
+  let r := acmeUpdate leader acct s
+  match p with
+  | .always => r
+  | .skipWhileFailing => if failing then (r.1, r.2.filter (fun o => !isAdd o)) else r
+
+structure ICycle where
+  c     : Cycle
+  chg   : Bool      -- the sync changed the HAProxy configuration in a way that needs a reload
+  rfail : Bool      -- a reload attempted in this cycle fails
+deriving Repr, DecidableEq
+
+/-- what `HAProxyUpdate` did about the reload -/
+inductive Reload where
+  | none      -- "old and new configurations match"
+  | ok
+  | failed
+deriving Repr, DecidableEq
+
+/-- `HAProxyUpdate`: a reload is attempted when nothing was committed yet (first update, or a full
+sync: `config.Clear()` drops `globalOld`), when the configuration changed, or when the last reload
+failed (`updated && i.reloadOwed`) -/
+def reloadOf (i : Inst) (c : ICycle) : Reload :=
+  if c.c.full || !i.committed || c.chg || i.owed then (if c.rfail then .failed else .ok) else .none
+
+/-- `updateSuccessful` / `reloadOwed` after the update -/
+def afterReload (cur : Bool) : Reload → Bool
+  | .none => cur
+  | .ok => false
+  | .failed => true
+
+/-- one reconciliation: sync, `AcmeUpdate`, `HAProxyUpdate` (deferred `Commit` in every case) -/
+def icycleP (p : AddPolicy) (i : Inst) (c : ICycle) : Inst × List QOp × Reload :=
+  let r := acmeUpdateP p i.failing c.c.leader c.c.acct (preUpdate i.st c.c)
+  let rl := reloadOf i c
+  ({ st := commit r.1, failing := afterReload i.failing rl, owed := afterReload i.owed rl,
+     committed := true }, r.2, rl)
+
+def runI (p : AddPolicy) (i : Inst) : List ICycle → Inst × List (List QOp × Reload × Bool)
+  | [] => (i, [])
+  | c :: cs =>
+    let r := icycleP p i c
+    let rest := runI p r.1 cs
+    (rest.1, (r.2.1, r.2.2, r.1.failing) :: rest.2)
+
+/-- the code that exists -/
+abbrev icycle := icycleP .always
+
 /-! ### Spec (b): what the queue must see in one cycle, given the storages before and after -/
 
 def keys (m : SMap) : List String := m.map (·.1)
@@ -334,6 +417,18 @@ def oracleCycle (full leader acct : Bool) (prev new : SMap) (ops : List QOp) : O
   if !((diff prev new).all rems.contains) then
     some (if full then "full-sync-vanished-storage-not-removed" else "vanished-storage-not-removed")
   else none
+
+/-- Spec over controller cycles: what the queue must see in a cycle is decided by the storages before
+and after it alone — the reload outcomes (`chg`, `rfail`, `failing`) play no part. The storages
+themselves do not depend on the `AddPolicy`. -/
+def oracleICycles : Inst → List ICycle → List (List QOp) → Option String
+  | _, [], _ => none
+  | _, _ :: _, [] => some "missing-output"
+  | i, c :: cs, o :: os =>
+    let i' := (icycle i c).1
+    match oracleCycle c.c.full c.c.leader c.c.acct i.st.items i'.st.items o with
+    | some e => some e
+    | none => oracleICycles i' cs os
 
 /-! ## (c) ingress converter: which storages are rebuilt -/
 
